@@ -4,6 +4,7 @@ import (
 	"errors"
 	"fmt"
 	"net"
+	"strings"
 
 	"github.com/oschwald/geoip2-golang"
 )
@@ -85,6 +86,16 @@ func (mmdb *maxMindDatabase) init() error {
 	return nil
 }
 
+// lookupErr returns a failed lookup's error without the address that was looked up. Callers log
+// these errors and the address is a client's; the library quotes it, e.g. when an IPv6 address
+// is looked up in a database that holds IPv4 networks only.
+func lookupErr(err error, ip net.IP) error {
+	if addr := ip.String(); strings.Contains(err.Error(), addr) {
+		return errors.New(strings.ReplaceAll(err.Error(), addr, "[address]"))
+	}
+	return err
+}
+
 // ASN returns the Autonomous System Number (ASN) associated with the provided IP.
 func (mmdb *maxMindDatabase) ASN(ipAddress net.IP) (uint, error) {
 	if mmdb == nil || mmdb.asnReader == nil {
@@ -93,7 +104,7 @@ func (mmdb *maxMindDatabase) ASN(ipAddress net.IP) (uint, error) {
 
 	record, err := mmdb.asnReader.ASN(ipAddress)
 	if err != nil {
-		return 0, err
+		return 0, lookupErr(err, ipAddress)
 	}
 
 	return record.AutonomousSystemNumber, nil
@@ -107,7 +118,7 @@ func (mmdb *maxMindDatabase) CC(ipAddress net.IP) (string, error) {
 
 	record, err := mmdb.ccReader.Country(ipAddress)
 	if err != nil {
-		return "", err
+		return "", lookupErr(err, ipAddress)
 	}
 	if record == nil {
 		return "unk", nil
